@@ -271,6 +271,70 @@ theorem lookup_isSome_of_mem (es : List (Entry α)) (e : Entry α) (h : e ∈ es
   rw [List.find?_isSome]
   exact ⟨e, h, by simp⟩
 
+theorem mem_keys_of_lookup (es : List (Entry α)) (k : α) (h : (lookup es k).isSome = true) : k ∈ es.map Prod.fst := by
+  simp only [lookup, Option.isSome_map] at h
+  rw [List.find?_isSome] at h
+  obtain ⟨e, he, hk⟩ := h
+  have : e.1 = k := by simpa using hk
+  exact List.mem_map.mpr ⟨e, he, this⟩
+
+theorem lookup_isSome_of_key (es : List (Entry α)) (k : α) (h : k ∈ es.map Prod.fst) : (lookup es k).isSome = true := by
+  obtain ⟨e, he, rfl⟩ := List.mem_map.mp h
+  exact lookup_isSome_of_mem es e he
+
+/-- with distinct keys `lookup` returns the value of the record with that key -/
+theorem lookup_of_mem_nodup (es : List (Entry α)) (hnd : (es.map Prod.fst).Nodup) (e : Entry α) (h : e ∈ es) :
+    lookup es e.1 = some e.2 := by
+  induction es with
+  | nil => cases h
+  | cons x rest ih =>
+    obtain ⟨a, b⟩ := x
+    have hnd' := List.nodup_cons.mp hnd
+    rw [lookup_cons]
+    rcases List.mem_cons.mp h with rfl | hm
+    · simp
+    · have hne : a ≠ e.1 := by
+        intro heq
+        exact hnd'.1 (heq ▸ List.mem_map.mpr ⟨e, hm, rfl⟩)
+      rw [if_neg (by simpa using hne)]
+      exact ih hnd'.2 hm
+
+/-- **The target-equals-legacy test is sound**: a file that passes it loads to exactly the records, under the name. -/
+theorem sameTarget_sound {File : Type} (v : V2 α File) (okE : Entry α → Prop) (okN : α → Prop) (hv : v.Lawful okE okN)
+    (f : File) (nm : α) (es : List (Entry α)) (hnd : (es.map Prod.fst).Nodup) (h : sameTarget v f nm es = true) :
+    v.nameOf f = nm ∧ ∀ k, v.loadMap f k = lookup es k := by
+  simp only [sameTarget, Bool.and_eq_true, beq_iff_eq, List.all_eq_true] at h
+  obtain ⟨⟨h1, h2⟩, h3⟩ := h
+  refine ⟨h1, ?_⟩
+  intro k
+  cases hl : lookup es k with
+  | some x =>
+    obtain ⟨e, he, hk⟩ := List.mem_map.mp (mem_keys_of_lookup es k (by simp [hl]))
+    have hx := lookup_of_mem_nodup es hnd e he
+    rw [hk, hl] at hx
+    have := h3 e he
+    rw [hk] at this
+    rw [this, Option.some.injEq] 
+    exact (Option.some.inj hx).symm
+  | none =>
+    cases hm : v.loadMap f k with
+    | none => rfl
+    | some y =>
+      have hk := hv.keysSound f k (by simp [hm])
+      have := h2 k hk
+      simp [hl] at this
+
+/-- … and complete: the file a lawful writer produced from these records under this name passes it -/
+theorem sameTarget_written {File : Type} (v : V2 α File) (okE : Entry α → Prop) (okN : α → Prop) (hv : v.Lawful okE okN)
+    (nm : α) (es : List (Entry α)) (hn : okN nm) (he : ∀ e ∈ es, okE e) (hnd : (es.map Prod.fst).Nodup) :
+    sameTarget v (v.write nm es) nm es = true := by
+  simp only [sameTarget, Bool.and_eq_true, beq_iff_eq, List.all_eq_true]
+  refine ⟨⟨hv.name nm es hn he, ?_⟩, ?_⟩
+  · intro k hk
+    exact hv.keysWritten nm es k hn he hnd hk
+  · intro e hm
+    rw [hv.load nm es hn he hnd e.1, lookup_of_mem_nodup es hnd e hm]
+
 theorem insertKV_ne_nil (es : List (Entry α)) (k v : α) : insertKV es k v ≠ [] := by
   cases es with
   | nil => simp [insertKV]
